@@ -384,13 +384,6 @@ class FetchAtt:
                         # headers we need to use the first sub-part of this
                         # message.
                         #
-                        if (
-                            msg.is_multipart()
-                            and msg.get_content_type() == "message/rfc822"
-                        ):
-                            return msg_headers_as_bytes(
-                                msg.get_payload(0)  # type: ignore[arg-type]
-                            )
                         return msg_headers_as_bytes(msg)
                     case _:
                         self.log.warn(
